@@ -22,6 +22,8 @@ Operations of a history (JSON lists):
   ["drop", spec]    forget configuration `spec` + gc.collect()     ["glob", spec]  make it the global one
                     (spec "-" = set_global_colors_config(None))
   ["fmt", obj, F]   change the record limits of table obj (columns kept), render nothing
+  ["ab", obj, how, k]  open a line iterator, take k lines, abandon it (close) -- nothing observed
+  ["fl", obj, how]  t = result.fixed_len(len(result)); t += "!"; then the result is read (must be unchanged)
   ["hnew"] / ["hp"] create a long-lived HCommand / console help through it (judged against the palette
                     it captured at creation; how often that differs from the global one is counted)
 how: "g" global configuration | "cX" colors_conf=X | "nc" no_color=True | "pc" palette class |
@@ -358,6 +360,23 @@ class World:
                 raise HistoryDisabled(op)
             text = self.hcmd[0]._make_help_text(p.obj)
             return [("hd", (None, self.hcmd[1], "std"), text, "hp", {"kept_ok": True})]
+        if kind == "ab":                                    # open, take k lines, abandon (close) the iterator
+            p = self._obj(op[1])
+            kw, _key = self._how(p, op[2])
+            it = iter(p.result(**kw))
+            for _ in range(op[3]):
+                next(it)
+            it.close()
+            self.events.add("iterator-abandoned")
+            return []
+        if kind == "fl":                                    # a cell cut from the result, appended to; result again
+            p = self._obj(op[1])
+            kw, key = self._how(p, op[2])
+            res = p.result(**kw)
+            cell = res.fixed_len(len(res))
+            cell += "!"
+            self.events.add("derived-text-modified")
+            return [(op[1], (self.fmt_state.get(op[1]),) + key, str(res), "whole", {"kept_ok": True})]
         if kind == "hnew":
             self.hcmd = (self.hdoc.HCommand(self.hdoc.HCommand._LEVEL_HH), self.global_spec)
             return []
